@@ -60,21 +60,8 @@ func (t *token) rename(v string) {
 }
 
 func (t *token) Int() int {
-	if len(t.Text) > 2 && t.Text[:2] == "0x" {
-		v, err := strconv.ParseInt(t.Text[2:], 16, 0)
-		if err != nil {
-			panicf("error parsing hex: %v", err)
-		}
-		return int(v)
-	}
-	if len(t.Text) > 1 && t.Text[0] == '0' {
-		v, err := strconv.ParseInt(t.Text[1:], 8, 0)
-		if err != nil {
-			panicf("error parsing octal: %v", err)
-		}
-		return int(v)
-	}
-	v, err := strconv.Atoi(t.Text)
+	// base 0: 0x/0X, 0b, 0o and leading-0 octal prefixes, digit separators, and the sign that negation folds into the literal
+	v, err := strconv.ParseInt(t.Text, 0, 64)
 	if err != nil {
 		panicf("error parsing int: %v", err)
 	}
